@@ -314,6 +314,41 @@ pub fn run(args: &Args) {
             };
             ctx!("multi-select-hash").check(&format!("{{a: {}, b: {}}}", l, r), &expected_h, !doc.is_null());
         }
+        // 8a. n copies of one member side by side: n results, whatever n is
+        if i % 5 == 0 {
+            let n = [2usize, 3, 5, 9, 17, 33, 65, 70, 129, 140][rng.below(10)];
+            let expected: Out = if doc.is_null() {
+                Ok(Value::Null)
+            } else {
+                l_out.clone().map(|v| Value::Array((0..n).map(|_| json!({"v": v.clone(), "w": [v.clone()]})).collect()))
+            };
+            let member = format!("{{v: ({}), w: [({})]}}", l, l);
+            ctx!("multi-select-list-of-n-hashes").check(&format!("[{}]", (0..n).map(|_| member.clone()).collect::<Vec<_>>().join(", ")), &expected, !doc.is_null());
+        }
+        // 8b. wide multi-selects of plain members, renamed in every order: member i of the result is
+        // the value of field i, whatever the order of the output keys and of the document's keys
+        if let Value::Object(m) = &doc {
+            if !m.is_empty() {
+                let n = 4 + rng.below(6);
+                let keys: Vec<&String> = m.keys().collect();
+                let mut out_names: Vec<String> = (0..n).map(|i| format!("{}{}", ["a", "z", "m", "K", "_"][i % 5], i)).collect();
+                // a random permutation of the output names
+                for i in (1..out_names.len()).rev() {
+                    let j = rng.below(i + 1);
+                    out_names.swap(i, j);
+                }
+                let fields: Vec<String> = (0..n).map(|_| if rng.chance(1, 8) { "no_such_member".to_string() } else { keys[rng.below(keys.len())].clone() }).collect();
+                let members: Vec<String> = out_names.iter().zip(&fields).map(|(k, f)| format!("{}: {}", k, refimpl::lex::spell_ident(f, false, 0))).collect();
+                let mut want = serde_json::Map::new();
+                for (k, f) in out_names.iter().zip(&fields) {
+                    want.insert(k.clone(), m.get(f).cloned().unwrap_or(Value::Null));
+                }
+                ctx!("multi-select-hash-wide").check(&format!("{{{}}}", members.join(", ")), &Ok(Value::Object(want.clone())), true);
+                let listed: Vec<String> = fields.iter().map(|f| refimpl::lex::spell_ident(f, false, 0)).collect();
+                let want_list = Value::Array(fields.iter().map(|f| m.get(f).cloned().unwrap_or(Value::Null)).collect());
+                ctx!("multi-select-list-wide").check(&format!("[{}]", listed.join(", ")), &Ok(want_list), true);
+            }
+        }
         // 9. not / and / or: truth-table combination of the operands' individual results
         {
             let not_e: Out = l_out.clone().map(|v| Value::Bool(!truthy(&v)));
